@@ -874,3 +874,225 @@ func c12PositionSource(w *World, r *Report) {
 		r.fail(rule, "positions found", "internal/parser/packet_dsl_parser.go", "the parse phase records no source position at all")
 	}
 }
+
+// ---- padding helpers: outcome signatures with polarity ----
+
+// polarCond: a branch condition as a described fact plus the successor on which the fact holds.
+func polarCond(w *World, cond ssa.Value) (desc string, trueSucc int, ok bool) {
+	neg := false
+	c := cond
+	for {
+		if u, isU := c.(*ssa.UnOp); isU && u.Op == token.NOT {
+			neg = !neg
+			c = u.X
+			continue
+		}
+		break
+	}
+	succ := func(onTrue bool) int {
+		if onTrue != neg {
+			return 0
+		}
+		return 1
+	}
+	switch x := c.(type) {
+	case *ssa.BinOp:
+		if x.Op == token.EQL || x.Op == token.NEQ {
+			if isNilConst(x.X) || isNilConst(x.Y) {
+				o := x.X
+				if isNilConst(o) {
+					o = x.Y
+				}
+				return "nonnil(" + types.TypeString(o.Type(), shortQual) + ")", succ(x.Op == token.NEQ), true
+			}
+			cs, c1 := constString(x.X)
+			other := x.Y
+			if !c1 {
+				cs, c1 = constString(x.Y)
+				other = x.X
+			}
+			if c1 {
+				what := "value"
+				if ld, ok := stripIdentity(other).(*ssa.UnOp); ok {
+					if fa, ok := ld.X.(*ssa.FieldAddr); ok {
+						tn, f, _, _ := fieldOf(fa)
+						what = tn + "." + f
+					}
+				}
+				_ = cs
+				return "equals-a-constant(" + what + ")", succ(x.Op == token.EQL), true
+			}
+		}
+	case *ssa.Extract:
+		if ta, ok := x.Tuple.(*ssa.TypeAssert); ok && x.Index == 1 {
+			return "is(" + modelTypeName(ta.AssertedType) + ")", succ(true), true
+		}
+	case *ssa.UnOp:
+		if x.Op == token.MUL {
+			if fa, ok := x.X.(*ssa.FieldAddr); ok {
+				tn, f, _, _ := fieldOf(fa)
+				return tn + "." + f, succ(true), true
+			}
+		}
+	case *ssa.Call:
+		if f := x.Call.StaticCallee(); f != nil {
+			return f.Name() + "()", succ(true), true
+		}
+	}
+	return "", 0, false
+}
+
+func stripNot(v ssa.Value) ssa.Value {
+	for {
+		if u, ok := v.(*ssa.UnOp); ok && u.Op == token.NOT {
+			v = u.X
+			continue
+		}
+		return v
+	}
+}
+
+// factsAt: the described facts that definitely hold (or definitely do not) when block blk is reached.
+func factsAt(w *World, fn *ssa.Function, blk *ssa.BasicBlock) []string {
+	set := map[string]bool{}
+	for _, bb := range fn.Blocks {
+		cond := branchCond(bb)
+		if cond == nil {
+			continue
+		}
+		d, ts, ok := polarCond(w, cond)
+		if !ok || strings.HasPrefix(d, "equals-a-constant(") {
+			continue // which spelling a value has is judged by the pad-spelling rule; here: presence and kind tests only
+		}
+		if c, isCall := stripNot(cond).(*ssa.Call); isCall {
+			if f := c.Call.StaticCallee(); f != nil && w.isSubjectFunc(f) {
+				continue // a repo predicate (e.g. "is the NUL spelling"): same reason
+			}
+		}
+		if edgeDominates(bb, ts, blk) {
+			set["+"+d] = true
+		}
+		if edgeDominates(bb, 1-ts, blk) {
+			set["-"+d] = true
+		}
+	}
+	return sortedBoolKeys(set)
+}
+
+// outcomeSignature: for a padding helper, every way a result is produced, with the facts known on that path:
+// "returns nil / a fresh copy / the selected padding when [...]" and "selects <source> when [...]". Callee helpers are inlined.
+func outcomeSignature(w *World, fn *ssa.Function, depth int) []string {
+	return outcomeSignatureB(w, fn, depth, bindings{})
+}
+
+func outcomeSignatureB(w *World, fn *ssa.Function, depth int, bs bindings) []string {
+	set := map[string]bool{}
+	if fn == nil || fn.Blocks == nil || depth > 3 {
+		return nil
+	}
+	srcOf := func(v ssa.Value) string {
+		v = stripIdentity(v)
+		for i := 0; i < 4; i++ {
+			p, ok := v.(*ssa.Parameter)
+			if !ok {
+				break
+			}
+			a, bound := bs[p]
+			if !bound {
+				break
+			}
+			v = stripIdentity(a)
+		}
+		if c, ok := v.(*ssa.Const); ok && c.IsNil() {
+			return "nil"
+		}
+		if _, ok := v.(*ssa.Alloc); ok {
+			return "fresh copy"
+		}
+		if ld, ok := v.(*ssa.UnOp); ok {
+			if fa, ok := ld.X.(*ssa.FieldAddr); ok {
+				tn, f, _, _ := fieldOf(fa)
+				return tn + "." + f
+			}
+		}
+		return ""
+	}
+	var classify func(v ssa.Value, at *ssa.BasicBlock, verb string, d int)
+	classify = func(v ssa.Value, at *ssa.BasicBlock, verb string, d int) {
+		v = stripIdentity(v)
+		if d > 6 {
+			return
+		}
+		if phi, ok := v.(*ssa.Phi); ok {
+			for i, e := range phi.Edges {
+				classify(e, phi.Block().Preds[i], "selects", d+1)
+			}
+			set[verb+" the selected padding when ["+strings.Join(factsAt(w, fn, at), " ")+"]"] = true
+			return
+		}
+		if c, ok := v.(*ssa.Call); ok {
+			if g := c.Call.StaticCallee(); g != nil && w.isSubjectFunc(g) && g.Pkg == w.Parser && g != fn {
+				nb := bindings{}
+				for k, val := range bs {
+					nb[k] = val
+				}
+				for i, p := range g.Params {
+					if i < len(c.Call.Args) {
+						nb[p] = c.Call.Args[i]
+					}
+				}
+				for _, s := range outcomeSignatureB(w, g, depth+1, nb) {
+					set[s] = true
+				}
+				return
+			}
+		}
+		if s := srcOf(v); s != "" {
+			set[verb+" "+s+" when ["+strings.Join(factsAt(w, fn, at), " ")+"]"] = true
+			return
+		}
+		set[verb+" a computed value when ["+strings.Join(factsAt(w, fn, at), " ")+"]"] = true
+	}
+	for _, b := range fn.Blocks {
+		ret, ok := b.Instrs[len(b.Instrs)-1].(*ssa.Return)
+		if !ok || len(ret.Results) == 0 {
+			continue
+		}
+		classify(ret.Results[0], b, "returns", 0)
+	}
+	return sortedBoolKeys(set)
+}
+
+// wirePaddingOutcomes: the five padding helpers produce their results under the same facts, polarity included (a negated test in one
+// language makes that language pad differently from the other four).
+func wirePaddingOutcomes(wc *wireCtx, r *Report, prop string) {
+	rule := prop + "/padding-outcomes"
+	sigs := map[string]string{}
+	var langs []string
+	for _, l := range codecLangs {
+		fns := wc.anchors[l]["padding"]
+		if len(fns) != 1 {
+			continue
+		}
+		sigs[l] = strings.Join(outcomeSignature(wc.m.w, fns[0], 0), "; ")
+		langs = append(langs, l)
+	}
+	count := map[string]int{}
+	for _, s := range sigs {
+		count[s]++
+	}
+	best := ""
+	for s, n := range count {
+		if n > count[best] || (n == count[best] && s < best) {
+			best = s
+		}
+	}
+	for _, l := range langs {
+		key := l + ": GetPadding produces its results under the same conditions as its siblings"
+		if sigs[l] == best {
+			r.pass(rule, key, wc.m.w.pos(wc.anchors[l]["padding"][0].Pos()), sigs[l])
+		} else {
+			r.fail(rule, key, wc.m.w.pos(wc.anchors[l]["padding"][0].Pos()), fmt.Sprintf("this generator: {%s}; %d sibling(s): {%s} - a test is inverted or a case is missing, so this language pads with a different character/side for some DSL", sigs[l], count[best], best))
+		}
+	}
+}
